@@ -417,10 +417,33 @@ class Eval:
                 if k is None:
                     raise AnalysisError("fmt_eval: dict.get with opaque key")
                 return base.get(k, self._expr(e.args[1], env) if len(e.args) == 2 else None)
+        if isinstance(e.func, ast.Attribute) and e.func.attr in ("append", "extend", "insert") and isinstance(e.func.value, ast.Name):
+            base = self._expr(e.func.value, env)
+            if isinstance(base, list):
+                vals = [self._expr(a, env) for a in e.args]
+                if e.func.attr == "append" and len(vals) == 1:
+                    base.append(vals[0])
+                    return None
+                if e.func.attr == "extend" and len(vals) == 1 and isinstance(vals[0], list):
+                    base.extend(vals[0])
+                    return None
+                if e.func.attr == "insert" and len(vals) == 2 and isinstance(vals[0], int):
+                    base.insert(vals[0], vals[1])
+                    return None
         if fn == "len":
             x = self._expr(e.args[0], env)
             if isinstance(x, (list, tuple)):
                 return len(x)
+        if fn in ("enumerate", "zip", "reversed", "list", "tuple"):
+            args = [self._expr(a, env) for a in e.args]
+            if all(isinstance(a, (list, tuple)) for a in args):
+                if fn == "enumerate":
+                    return [[i, x] for i, x in enumerate(args[0])]
+                if fn == "zip":
+                    return [list(t) for t in zip(*args)]
+                if fn == "reversed":
+                    return list(reversed(args[0]))
+                return list(args[0])
         if fn == "range":
             args = [self._expr(a, env) for a in e.args]
             if all(isinstance(a, int) for a in args):
